@@ -433,6 +433,29 @@ def _run(ctx: Ctx, im: Impl, rng):
                 late = present & {8, 11}
                 sig = "layout-decode-mismatch-with-0x100-or-0x800-present" if late else "layout-decode-field-mismatch"
                 ctx.violation(sig, "; ".join(bad[:4]) + f" (flags {sum(1 << b for b in present):#x})", inp)
+            elif cnt % 3 == 0:
+                # the decoded cell is encoded again (as a save does) and the new record is read with the independent layout
+                # decoder: every attribute the cell carries sits at ITS OWN flag bit with its own value - also when the record
+                # it came from carried fields the library does not interpret (whatever the encoder chooses to do with those)
+                self_buf, _shown = im.encode(cell)
+                if self_buf is not None:
+                    try:
+                        back = spec_decode(bytes(self_buf))
+                    except Exception:  # noqa: BLE001
+                        back = None
+                    bad2 = []
+                    if back is None:
+                        bad2.append("re-encoded record does not follow the layout")
+                    else:
+                        for a, bit in zip(("string",) + ID_ATTRS, (3,) + ID_BITS):
+                            if o[a] is not None and a != "string":
+                                got = back.get(bit)
+                                if got is None or struct.unpack("<i", got)[0] != o[a]:
+                                    bad2.append(f"{a} (flag {1 << bit:#x}) = {o[a]} is written as "
+                                                f"{None if got is None else struct.unpack('<i', got)[0]}")
+                    if bad2:
+                        ctx.violation("decode-reencode-field-mismatch", "; ".join(bad2[:4]) +
+                                      f" (record flags {sum(1 << b for b in present):#x}, re-encoded by Cell._to_buffer)", inp)
     ctx.correspond("spec encoder: Python layout encoder vs Lean specEncode (sampled 1/16)", req_s, out_s)
     ctx.correspond("_from_storage on layout-encoded records: " +
                    ("all 2^21 flag subsets" if not ctx.quick else "2^5 uninterpreted x 2048 subsets of the rest"),
